@@ -107,6 +107,7 @@ type Reg struct {
 	Deps     []Dep
 	FuncKind int  // 0 reflect.MakeFunc; others see funcs.go
 	Removed  bool // C17: removed after registration
+	SameObj  bool // an interface-typed later output is the very object returned as an earlier output
 }
 
 func (r *Reg) String() string {
@@ -140,6 +141,9 @@ func (r *Reg) String() string {
 		if o.Group != "" {
 			b.WriteString("@" + o.Group)
 		}
+	}
+	if r.SameObj {
+		b.WriteString(" [interface-typed output is the same object as an earlier output]")
 	}
 	if r.Name != "" {
 		fmt.Fprintf(&b, " Name(%s)", r.Name)
